@@ -469,6 +469,10 @@ def enum_eps(tier, seed):
         for p in range(1, n + 1):
             if n ** (2 * p) <= maxent:
                 yield ("delta", n, p)
+    # sequences of instantiations in one process (class-level caches): ascending, descending, argument-swapped pairs, p > n
+    yield ("delta_sequence", "ascending")
+    yield ("delta_sequence", "descending")
+    yield ("delta_sequence", "swapped-pairs")
 
 
 def _perm_sign_cycles(p):
@@ -512,6 +516,35 @@ def case_eps(ctx, cfg):
         cached = LeviCivitaTensor._cache.get(n)
         if cached is not None and not np.array_equal(cached, want):
             ctx.fail("epsilon:cache-changed", "LeviCivitaTensor._cache", {"n": n}, "definition", "changed")
+    elif cfg[0] == "delta_sequence":
+        from checks.c20 import vdet
+
+        pairs = [(n, p) for n in (1, 2, 3, 4) for p in (1, 2, 3, 4) if n ** (2 * p) <= 70000]
+        if cfg[1] == "descending":
+            pairs = pairs[::-1]
+        elif cfg[1] == "swapped-pairs":
+            pairs = [x for n, p in pairs if n < p for x in ((n, p), (p, n))] + [x for n, p in pairs if n > p for x in ((n, p), (p, n))]
+
+        def want_delta(n, p):
+            idx = np.indices((n,) * (2 * p)).reshape(2 * p, -1).T
+            M = (idx[:, :p][:, :, None] == idx[:, p:][:, None, :]).astype(np.int64)
+            return vdet(M).reshape((n,) * (2 * p))
+
+        for rep in range(2):
+            for n, p in pairs:
+                d, ex = ctx.call(KroneckerDelta, n, p)
+                ctx.trace()
+                ctx.state(("delta_sequence", cfg[1], n, p, rep))
+                ctx.tally("p>n" if p > n else "p<=n")
+                w = want_delta(n, p)
+                if ex is not None or d.array.shape != w.shape or not np.array_equal(d.array, w) or d.tensor_shape != (p, p):
+                    ctx.fail(f"delta:sequence:{cfg[1]}", "KroneckerDelta", {"n": n, "p": p, "order": cfg[1], "earlier": [list(x) for x in pairs[: pairs.index((n, p))]][-4:]}, list(w.shape), ex if ex is not None else list(d.array.shape))
+                    return
+            for n in (2, 3, 4):
+                e_, ex = ctx.call(LeviCivitaTensor, n)
+                if ex is not None or not np.array_equal(e_.array, LeviCivitaTensor(n, False).array):
+                    ctx.fail("epsilon:sequence", "LeviCivitaTensor", {"n": n}, "same array for both variances", ex)
+                    return
     else:
         _, n, p = cfg
         idx = np.indices((n,) * (2 * p)).reshape(2 * p, -1).T  # every index tuple (mu_1..mu_p, nu_1..nu_p)
